@@ -16,7 +16,8 @@ def batch_of(C, pct=5):
 class Case:
     """a driver case: configuration + command list; serialises to the shared line format"""
     def __init__(self, dropping=0, capk=10, tinit=4, soft=4, hard=8, grace=0, loggers=None, sinks=None,
-                 facts=None):
+                 facts=None, fiv=0):
+        self.fiv = fiv                            # sink_min_flush_interval in ticks (ns), a multiple of 1_000_000
         self.dropping = dropping; self.capk = capk; self.tinit = tinit; self.soft = soft; self.hard = hard
         self.grace = grace
         self.loggers = loggers or [(0, [0])]      # (level, [sink idx])
@@ -78,7 +79,7 @@ class Case:
         btr = 0 if f.get('bt_reset_index') == 'false' else 1
         btg = 0 if f.get('bt_cap0_guard') == 'false' else 1
         btc = 0 if f.get('be_bt_replay_catch') == 'false' else 1
-        out = ['be', self.dropping, self.capk, batch_of(C), ob, od, self.tinit, self.soft, self.hard, self.grace, bits, rf2, ca, rfirst, btr, btg, btc, CLOCK0]
+        out = ['be', self.dropping, self.capk, batch_of(C), ob, od, self.tinit, self.soft, self.hard, self.grace, bits, rf2, ca, rfirst, btr, btg, btc, self.fiv, CLOCK0]
         out.append(len(self.loggers))
         for lvl, ks in self.loggers: out += [lvl, len(ks)] + list(ks)
         out.append(len(self.sinks))
@@ -215,7 +216,7 @@ class Track:
                     else: d['outcome'] = 'dropped'; d['ret'] = pos
                 elif kind == 'flush':
                     t, i = c[1], c[2]
-                    f = dict(thread=t, start=pos, ret=None, ts=clock)
+                    f = dict(thread=t, start=pos, ret=None, ts=clock, logger=c[3])
                     if t in pending or t in dead: f['ignored'] = True
                     else:
                         self.flushes[i] = f
